@@ -9,6 +9,7 @@ import (
 	"strings"
 
 	ethcmn "github.com/ethereum/go-ethereum/common"
+	ethcrypto "github.com/ethereum/go-ethereum/crypto"
 	"pgregory.net/rapid"
 
 	"github.com/Oneledger/protocol/data/governance"
@@ -286,6 +287,15 @@ func (w *World) Observe(txs []txgen.Tx, res *sim.BlockRes) {
 				}
 			}
 		case "OLVM":
+			if len(parts) == 4 && parts[3] == "factory" {
+				n, _ := strconv.ParseUint(parts[2], 10, 64)
+				for _, e := range w.G.U.Eth {
+					if e.Name == parts[1] {
+						w.Factories = append(w.Factories, ethcrypto.CreateAddress(e.Addr, n))
+					}
+				}
+				parts = parts[:3]
+			}
 			if len(parts) == 3 {
 				n, _ := strconv.ParseUint(parts[2], 10, 64)
 				if n+1 > w.OlvmNext[parts[1]] {
